@@ -419,7 +419,7 @@ fn directed_invalid_repeat(ctx: &WorkerCtx, rep: &mut WorkerReport, net: &str) {
     let mut d = new_driver("C06");
     d.exec(Op::Init { hash: hist::ZERO_HASH.into(), ts: 5, height: 0 });
     let pk = "5120cccccccccccccccccccccccccccccccccccccccccccccccccccccccccccccccc".to_string();
-    let hash = format!("0x{:064x}", 0xabcdu64);
+    let hash = crate::hist::bh((0xabcdu64) as u64);
     let data = hist::hx(&[0x00]);
     for i in 0..2u64 {
         d.exec(Op::Call { pk: pk.clone(), target: Target::Addr("0x00000000000000000000000000000000000000aa".into()), data: Some(data.clone()), enc: Enc::Hex, ctx: Ctx { ts: 6, hash: hash.clone(), idx: i }, iid: format!("rep{}i0", i), len: 0, txid: hist::ZERO_HASH.into() });
@@ -440,7 +440,7 @@ fn directed_signing_hash_collision(ctx: &WorkerCtx, rep: &mut WorkerReport, net:
     for (i, tag) in [71u8, 72u8].iter().enumerate() {
         let s = hist::Signer::new(*tag);
         let raw = s.sign(Some(chain), 0, None, &data);
-        let hash = format!("0x{:064x}", 0xc011u64 + i as u64);
+        let hash = crate::hist::bh((0xc011u64 + i as u64) as u64);
         d.exec(Op::Transact { raw: format!("0x{}", raw), enc: Enc::Hex, ctx: Ctx { ts: 6 + i as u64, hash: hash.clone(), idx: 0 }, iid: format!("coll{}i0", i), len: 100_000, txid: hist::ZERO_HASH.into() });
         let n = d.ntx;
         d.exec(Op::Finalise { ts: 6 + i as u64, hash, count: n });
